@@ -129,6 +129,13 @@ func bracket(xs []string) string {
 
 var strAlpha = []string{"a", "B", " ", "é", "ß", "日", "\n"}
 
+// two combining marks (acute accent, diaeresis): code points that are characters of their own for
+// length / first / last / slice / for and that reverse moves like any other — at the start of a
+// string, after a base character, after another mark, alone
+var markAlpha = []string{"\u0301", "\u0308"}
+
+func hasMark(s string) bool { return strings.ContainsAny(s, "\u0301\u0308") }
+
 // all strings of length <= n over alpha, shortest first
 func allStrings(alpha []string, n int) []string {
 	res := []string{""}
@@ -732,15 +739,26 @@ func lawReverseStrings(t *vlib.T, strs []string) {
 			eval: func(out string) *vlib.Outcome {
 				cs := chars(s)
 				o := &vlib.Outcome{Nontrivial: len(cs) >= 2, Class: fmt.Sprintf("reverse/str/n=%d/mb=%v", len(cs), len(s) != len(cs))}
+				marks := hasMark(s)
+				if marks {
+					o.Class += "/marks"
+				}
 				p, ok := parts(out, 5)
 				if !ok {
 					return bad(o, "unexpected output shape")
 				}
-				if p[0] != bracket(reversed(cs)) {
+				if marks {
+					// which order a base character and the marks behind it come out in is not fixed by
+					// "length-preserving involution": only the number of characters of the reversed
+					// string is demanded here, the involution and the length below
+					if got, ok := items(p[0]); !ok || len(got) != len(cs) {
+						return bad(o, "reverse of %+q has the characters %+q: %d, the string has %d", s, p[0], len(got), len(cs))
+					}
+				} else if p[0] != bracket(reversed(cs)) {
 					return bad(o, "reverse of %q gives characters %s, want %s", s, p[0], bracket(reversed(cs)))
 				}
 				if p[1] != bracket(cs) || p[4] != "same" {
-					return bad(o, "reverse is not an involution on %q: twice gives %s", s, p[1])
+					return bad(o, "reverse is not an involution on %+q: twice gives %+q", s, p[1])
 				}
 				if p[2] != p[3] || p[2] != strconv.Itoa(len(cs)) {
 					return bad(o, "reverse changes the length of %q: %s vs %s (characters: %d)", s, p[2], p[3], len(cs))
@@ -894,7 +912,7 @@ func lawObservers(t *vlib.T, strs []string, lists []listVal, maps []mapVal) {
 	}
 }
 
-func lawSliceGrid(t *vlib.T, maxN int) {
+func lawSliceGrid(t *vlib.T, maxN int, alpha []string) {
 	type seq struct {
 		name string
 		el   []string
@@ -902,7 +920,7 @@ func lawSliceGrid(t *vlib.T, maxN int) {
 		str  bool
 	}
 	var seqs []seq
-	for _, s := range allStrings([]string{"a", "é", "日"}, maxN) {
+	for _, s := range allStrings(alpha, maxN) {
 		s := s
 		seqs = append(seqs, seq{fmt.Sprintf("str:%q", s), chars(s), func() interface{} { return s }, true})
 	}
@@ -1588,21 +1606,31 @@ func main() {
 				ns, nl, nsl = 5, 4, 5
 			}
 			strs := allStrings(strAlpha, ns)
+			// the same with the two combining marks: reverse and the observers (length, first, last,
+			// slice, for) count and move code points
+			strsM := allStrings(append(append([]string{}, strAlpha...), markAlpha...), ns)
+			sliceAlpha := []string{"a", "é", "日", "\u0301"}
+			if th {
+				sliceAlpha = append(sliceAlpha, "\u0308")
+			}
 			lists := listsOf(nl, true)
 			mix := mixLists(nl) // untyped lists of numbers of every Go numeric kind
 			maps3 := mapsOf([]string{"a", "b", "c"}, []int{0, 1, 2}, 3, []string{"any", "int", "string"})
 			lawDefault(t)
 			lawIdempotent(t, strs)
-			lawReverseStrings(t, strs)
+			lawReverseStrings(t, strsM)
 			lawReverseSortLists(t, lists)
 			lawReverseSortLists(t, mix)
-			lawObservers(t, strs, lists, maps3)
+			lawObservers(t, strsM, lists, maps3)
 			lawObservers(t, nil, mix, nil)
 			lawKeys(t, maps3)
 			lawJoinSplit(t, 3)
 			lawJoinNumbers(t, mix)
-			lawMerge(t, listsOf(2, false), mapsOf([]string{"a", "b", "c"}, []int{0, 1, 2}, 2, []string{"any", "int"}))
-			lawSliceGrid(t, nsl)
+			maps2 := mapsOf([]string{"a", "b", "c"}, []int{0, 1, 2}, 2, []string{"any", "int"})
+			lawMerge(t, listsOf(2, false), maps2)
+			lawHeld(t, nl)
+			lawHeldMaps(t, maps2)
+			lawSliceGrid(t, nsl, sliceAlpha)
 			if th {
 				lawCasePoints(t, 0x10FFFF)
 				lawNumbers(t, 4, 30000)
